@@ -415,7 +415,7 @@ func (s *Sim) fireTimers() {
 		if best == nil {
 			return
 		}
-		s.timers = append(s.timers[:bi], s.timers[bi+1:]...)
+		s.timers = delTimer(s.timers, bi)
 		best.t.ent = nil
 		best.t.fire(s)
 	}
